@@ -197,6 +197,20 @@ pub fn run(ctx: &Ctx, out: &mut Out) {
             compare(ctx, out, &text, g, "graph");
         }
     }
+    // 2c. blanket impls over marker traits: positive cycles through several tables sharing one unknown
+    let nbl = ctx.budget(150, 5000);
+    for i in 0..nbl {
+        idx += 1;
+        if !ctx.mine(idx) {
+            continue;
+        }
+        let mut rng = ctx.rng(5, i as u64);
+        let (text, ex, gr) = blanket_program(&mut rng);
+        out.count("blanket_programs");
+        for g in ex.iter().chain(gr.iter()) {
+            compare(ctx, out, &text, g, "blanket");
+        }
+    }
     // 2. generated programs (with and without coinductive traits; ground and existential goals)
     let nprog = ctx.budget(150, 6000);
     for i in 0..nprog {
